@@ -5,3 +5,7 @@ go 1.24
 require github.com/flanglet/kanzi-go/v2 v2.0.0
 
 replace github.com/flanglet/kanzi-go/v2 => /repo/v2
+
+require kanziref/v2 v2.0.0
+
+replace kanziref/v2 => ../ref/kanzi-go-v2
